@@ -713,7 +713,7 @@ FAMILIES = (
 
 
 class Member:
-    __slots__ = ("id", "kind", "cols", "order", "labels", "nparts", "known", "root", "index_kind", "depth")
+    __slots__ = ("id", "kind", "cols", "order", "labels", "nparts", "known", "root", "index_kind", "depth", "overlap")
 
     def __init__(self, id, kind, cols, order, labels, nparts, known, root, index_kind, depth):
         self.id = id
@@ -726,6 +726,7 @@ class Member:
         self.root = root  # id of source op (for co-alignment heuristics)
         self.index_kind = index_kind
         self.depth = depth
+        self.overlap = False  # downstream of an op that looks into neighbouring partitions (shift/diff/rolling/cum*)
 
     def det(self):
         return {"order": self.order, "labels": self.labels, "kind": self.kind}
@@ -908,6 +909,7 @@ class Generator:
         srcs = op_srcs(op)
         depth = 1 + max([self.members[s].depth for s in srcs], default=0)
         m = Member(op["id"], kind, cols, order, labels, nparts, known, root, index_kind, depth)
+        m.overlap = op["op"] in ("shift", "diff", "rolling", "cum") or any(self.members[s_].overlap for s_ in srcs)
         self.members[op["id"]] = m
         if op.get("knob_names"):
             # partition counts of the inputs: knob vectors are drawn around the selection thresholds they create
@@ -1303,7 +1305,7 @@ class Generator:
         return self.try_add(op, s.order, s.labels, s.root, s.index_kind)
 
     def g_headtail(self):
-        ms = [m for m in self.frames() + self.series() if m.order == "defined"]
+        ms = [m for m in self.frames() + self.series() if m.order == "defined" and not m.overlap]
         m = self.pick(ms)
         if not m:
             return None
@@ -1316,7 +1318,9 @@ class Generator:
         return self.try_add({"op": "tail", "src": m.id, "n": n}, m.order, m.labels, self.next_id, m.index_kind)
 
     def g_partitions(self):
-        ms = [m for m in self.frames() + self.series() if m.order == "defined" and m.nparts >= 2]
+        # selecting partitions on top of an op that reads neighbouring partitions is pushed below it and changes
+        # the neighbours (a C11-type defect, not claimed): not generated
+        ms = [m for m in self.frames() + self.series() if m.order == "defined" and m.nparts >= 2 and not m.overlap]
         m = self.pick(ms)
         if not m:
             return None
